@@ -195,6 +195,18 @@ def judge(S, o, decl):
     return fails, nan, ser
 
 
+def _has_inner_nel(v) -> bool:
+    """a string with U+0085 (NEL) between other characters somewhere in the value"""
+    if isinstance(v, str):
+        i = v.find("\x85")
+        return 0 < i < len(v) - 1
+    if isinstance(v, dict):
+        return any(_has_inner_nel(k) or _has_inner_nel(x) for k, x in v.items())
+    if isinstance(v, (list, tuple, set)):
+        return any(_has_inner_nel(x) for x in v)
+    return False
+
+
 def reuse_failures(S, prev, o):
     """`prev` has been serialised in every form already; a copy of it carrying o's field values equals o and must
     serialise to something that parses back to o (no state of earlier serialisations may leak)."""
@@ -415,6 +427,8 @@ def run_gen(item):
                             shift = False
                     if shift:
                         cause = "union-alternative-shift"
+                if cause == "other" and form == "yaml" and part in ("roundtrip", "second-roundtrip") and _has_inner_nel(vals):
+                    cause = "yaml-nel-folded"
                 key = (part, form, cause)
                 if key in classes_reported:
                     continue
@@ -514,13 +528,14 @@ def run_installed(item, case_fn=None):
             res["failed_idx"].append(idx)
         res["nviol"] += len(fails)
         for part, form, what in _by_part(fails):
-            key = (part, form)
+            cause = "yaml-nel-folded" if (form == "yaml" and part in ("roundtrip", "second-roundtrip") and _has_inner_nel(dev)) else "other"
+            key = (part, form, cause)
             if key in classes_reported:
                 continue
             classes_reported.add(key)
             res["viol"].append(
                 {
-                    "sig": {"part": part, "form": form, "cause": "other", "schema": name, "fields": sorted(k for k, _ in dev)},
+                    "sig": {"part": part, "form": form, "cause": cause, "schema": name, "fields": sorted(k for k, _ in dev)},
                     "input": {"kind": "installed", "schema": name, "version": list(ver), "deviation": dev, "seed": _E.n.seed},
                     "what": what,
                 }
@@ -679,7 +694,7 @@ def _finalise_sigs(viols):
         t = v.pop("_type", None)
         if t is not None:
             s = dict(v["sig"])
-            if s["cause"] == "union-alternative-shift" or s.get("input") == "explicit-None":
+            if s["cause"] in ("union-alternative-shift", "yaml-nel-folded") or s.get("input") == "explicit-None":
                 pass  # one class per (part, form): the cause is the class
             elif t in G.ATOMS:
                 s["type"] = t
